@@ -307,6 +307,12 @@ def gen_op(rng, model, cfg, step):
         if cls in ("HNode", "HNodeEq", "HNodeBag", "HNodeNo", "HAny", "HMix", "HSym") and rng.random() < 0.3:
             op["attrs"] = {"foo": step}
     prof = cfg["profile"]
+    if cfg["prop"] == "C02" and op["op"] == "parent" and n_nodes > 2 and rng.random() < 0.06:
+        exp = expect_of(model, op)
+        if exp.exc is None and exp.trace:
+            x = rng.choice([i for i in range(n_nodes) if i != op["n"]])
+            op["f"] = {"act": [[rng.randrange(len(exp.trace)), x]]}
+        return op
     if cfg.get("persist_run"):
         op["f"] = {"persist": cfg["persist_spec"]}
     elif prof != "none" and rng.random() < cfg["p_fault"]:
@@ -712,6 +718,10 @@ def run(cfg, ops=None, rng=None, extra=None, pre_gen=None, handle=None):
             post = world.snapshot()
             h.update(repr(post).encode())
             res.states.add(stable_hash(post))
+            for _, x in world.acted:
+                # a hook detached another node while the call was in flight; that commutes with the call's own effect
+                model.apply_parent(x, None)
+                res.bump("hook_actions")
             if status == "ok":
                 apply_op(model, op, newidx)
             ideal = model.snapshot()
